@@ -83,7 +83,7 @@ def histories(tier, seed):
             hist[-1].pop("style", None)  # only the complete dictionary can carry a non-nonorthogonal key
         return {"family": "G", "entry": "regrid-history", "eq": eq, "options": o, "history": hist, "changes_other_setting": other}
 
-    n = 10 if tier == "quick" else 72
+    n = 12 if tier == "quick" else 72
 
     def key(d):
         # the grid is compared with a fresh build after the *last* step only, so what the last step is
@@ -96,6 +96,10 @@ def histories(tier, seed):
         else:
             final = "change"
         k = "final=%s/other=%s/base-lengths=%s" % (final, d["changes_other_setting"], "xpoint_poloidal_spacing_length" in d["options"])
+        if final == "empty-dict":
+            # hypnotoad refuses many non-orthogonal single nulls: one such history per topology, so that
+            # at least one completes
+            k = "final=empty-dict/%s" % d["eq"]["topology"]
         return k if tier == "quick" else "%s/%s/%d" % (k, d["eq"]["topology"], len(d["history"]))
 
     return corpus.collect(build(), n, seed + 1500, keyfn=key, oversample=30 if tier == "quick" else 12)
